@@ -447,6 +447,15 @@ func (pe *PathEnum) Run() {
 		return
 	}
 	st := &PathState{sigs: map[string]int{}, Env: map[ssa.Value]int64{}, visits: map[*ssa.BasicBlock]int{}, PE: pe, Data: map[string]interface{}{}, Alias: map[ssa.Value]ssa.Value{}, Mem: map[*ssa.Alloc]ssa.Value{}}
+	// named results (and other non-escaping locals of interface / pointer type) start as nil
+	for a := range pe.locals {
+		if pt, ok := a.Type().Underlying().(*types.Pointer); ok {
+			switch pt.Elem().Underlying().(type) {
+			case *types.Interface, *types.Pointer, *types.Slice, *types.Map:
+				st.Mem[a] = ssa.NewConst(nil, pt.Elem())
+			}
+		}
+	}
 	pe.walk(pe.Fn.Blocks[0], nil, st)
 }
 
